@@ -18,6 +18,18 @@ Line protocol of component `tracing` (C17).
     tracing nolayer                                             → ok         (the subscriber has no MetricsLayer:
                                                                   spans answer `no-labels`, keys pass unchanged)
 
+    tracing newhid <thread> <r|c|span#> [<slot>]                → <span#> no-labels   (the per-layer filter on the
+                                                                  MetricsLayer turned the span down: it exists, the layer
+                                                                  never hears of it)
+    tracing newoff <thread>                                     → <span#> off   (a global filter disabled the span: it has
+                                                                  no id; later reference to the number is a bad-op)
+    tracing event <thread> <r|c|span#> <fields>                 → <map of the span the event is in | no-labels | ~>
+    tracing follows <span#> <span#>                             → <map of the first span | no-labels>
+
+`new` under a filtered layer merges the labels of the closest ENABLED ancestor (`labelParent`); the driver runs the
+filtered model (`FState`) and, translated (`ftransOp`), the pooled and the slot models side by side: bad-op when they
+disagree.
+
 `filter` starts a fresh subscriber; the object pool is process-wide and carries over (`poolAfterDrop`).
 
 fields = list of `name:value`, value = `s<hex>` | `b0` | `b1` | `i<int>` | `u<nat>` | `d<hex rendered>` | `e`.
@@ -31,6 +43,7 @@ structure DSt where
   p : PState := {}
   hasLayer : Bool := true
   r : RState := {}                      -- the same subscriber, `Labels` stored in and read through registry slots
+  f : FState := {}                      -- the same subscriber with spans hidden from the layer, events, follows_from
 
 /-- the pool a new subscriber finds: what the previous one (with a layer) left behind -/
 def carry (d : Option DSt) : List FMap :=
@@ -97,9 +110,12 @@ def handle (d : Option DSt) (args : List String) : Option (Option DSt × String)
       let par ← parentTok p par
       let fields ← fieldsTok fields
       if d.hasLayer then
-        let p' := pstep p (.base (.newSpan t par fields))
+        let q := optParent (labelParent d.f t par)
+        let p' := pstep p (.base (.newSpan t q fields))
+        let p' := { p' with parents := p.parents ++ [resolveParent p.base t par] }
+        let f' := fstep d.f (.new t par fields true)
         let m ← p'.base.spans[n]?
-        pure (some { d with p := p' }, s!"{n} {showMap m}")
+        if fLabels f' n == some m then pure (some { d with p := p', f := f' }, s!"{n} {showMap m}") else none
       else
         pure (some { d with p := pNewSpanNoLayer p t par }, s!"{n} no-labels")
     | "new", [t, par, fields, slot] => do
@@ -107,46 +123,95 @@ def handle (d : Option DSt) (args : List String) : Option (Option DSt × String)
       let par ← parentTok p par
       let fields ← fieldsTok fields
       let slot ← slot.toNat?
-      if d.hasLayer && legal d.r (.new t par fields slot) then
-        let p' := pstep p (.base (.newSpan t par fields))
-        let r' := rstep d.r (.new t par fields slot)
+      let q := optParent (labelParent d.f t par)
+      if d.hasLayer && legal d.r (.new t q fields slot) then
+        let p' := pstep p (.base (.newSpan t q fields))
+        let p' := { p' with parents := p.parents ++ [resolveParent p.base t par] }
+        let r' := rstep d.r (.new t q fields slot)
+        let f' := fstep d.f (.new t par fields true)
         let m ← p'.base.spans[n]?
         -- the map as the code reads it: through the slot
-        if r'.ext slot == some m then pure (some { d with p := p', r := r' }, s!"{n} {showMap m}") else none
+        if r'.ext slot == some m && fLabels f' n == some m then
+          pure (some { d with p := p', r := r', f := f' }, s!"{n} {showMap m}")
+        else none
+      else none
+    | "newhid", [t, par] => do
+      let t ← t.toNat?
+      let par ← parentTok p par
+      if d.hasLayer then
+        pure (some { d with p := pNewSpanNoLayer p t par, f := fstep d.f (.new t par [] false) }, s!"{n} no-labels")
+      else none
+    | "newhid", [t, par, slot] => do
+      let t ← t.toNat?
+      let par ← parentTok p par
+      let slot ← slot.toNat?
+      -- in the slot model the hidden span occupies its slot as a field-less root (`ftransOp`)
+      if d.hasLayer && legal d.r (.new t .root [] slot) then
+        pure (some { d with p := pNewSpanNoLayer p t par, r := rstep d.r (.new t .root [] slot),
+                            f := fstep d.f (.new t par [] false) }, s!"{n} no-labels")
+      else none
+    | "newoff", [t] => do
+      let t ← t.toNat?
+      let p' := pNewSpanNoLayer p t .root
+      pure (some { d with p := { p' with closed := n :: p'.closed }, f := fstep d.f (.new t .root [] false) }, s!"{n} off")
+    | "event", [t, par, fields] => do
+      let t ← t.toNat?
+      let par ← parentTok p par
+      let fields ← fieldsTok fields
+      let f' := fstep d.f (.event t par fields)
+      match resolveParent p.base t par with
+      | none => pure (some { d with f := f' }, "~")
+      | some c =>
+        if d.hasLayer then
+          pure (some { d with f := f' }, match fLabels f' c with | some m => showMap m | none => "no-labels")
+        else pure (some d, "no-labels")
+    | "follows", [a, b] => do
+      let a ← a.toNat?
+      let b ← b.toNat?
+      if live p a && live p b then
+        let f' := fstep d.f (.followsFrom a b)
+        if d.hasLayer then
+          pure (some { d with f := f' }, match fLabels f' a with | some m => showMap m | none => "no-labels")
+        else pure (some d, "no-labels")
       else none
     | "rec", [t, id, fields] => do
       let t ← t.toNat?
       let id ← id.toNat?
       let fields ← fieldsTok fields
       if live p id then
-        if d.hasLayer then
+        if d.hasLayer && !isHidden d.f id then
           let p' := pstep p (.base (.record t id fields))
           let r' := rstep d.r (.record t id fields)
+          let f' := fstep d.f (.record t id fields)
           let m ← p'.base.spans[id]?
-          if d.r.base.spans.isEmpty || r'.ext (r'.slotOf id) == some m then
-            pure (some { d with p := p', r := r' }, showMap m)
+          if (d.r.base.spans.isEmpty || r'.ext (r'.slotOf id) == some m) && fLabels f' id == some m then
+            pure (some { d with p := p', r := r', f := f' }, showMap m)
           else none
-        else pure (some d, "no-labels")
+        else pure (some { d with f := fstep d.f (.record t id fields) }, "no-labels")
       else none
     | "enter", [t, id] => do
       let t ← t.toNat?
       let id ← id.toNat?
       if live p id then
         let p' := pstep p (.base (.enter t id))
-        pure (some { d with p := p', r := rstep d.r (.enter t id) }, showCur (current p'.base t))
+        pure (some { d with p := p', r := rstep d.r (.enter t id), f := fstep d.f (.enter t id) }, showCur (current p'.base t))
       else none
     | "exit", [t, id] => do
       let t ← t.toNat?
       let id ← id.toNat?
       if live p id then
         let p' := pstep p (.base (.exit t id))
-        pure (some { d with p := p', r := rstep d.r (.exit t id) }, showCur (current p'.base t))
+        pure (some { d with p := p', r := rstep d.r (.exit t id), f := fstep d.f (.exit t id) }, showCur (current p'.base t))
       else none
     | "close", [t, id] => do
       let _ ← t.toNat?
       let id ← id.toNat?
       if live p id && !pinned p 16 id then
-        if d.hasLayer then pure (some { d with p := pstep p (.close id), r := rstep d.r (.close id) }, "closed")
+        if d.hasLayer && !isHidden d.f id then
+          pure (some { d with p := pstep p (.close id), r := rstep d.r (.close id) }, "closed")
+        else if d.hasLayer then
+          -- a hidden span holds no `Labels`: nothing goes back to the pool; its slot is freed
+          pure (some { d with p := { p with closed := id :: p.closed }, r := rstep d.r (.close id) }, "closed")
         else pure (some { d with p := { p with closed := id :: p.closed } }, "closed")
       else none
     | "emit", [t, name, labels] => do
@@ -154,6 +219,8 @@ def handle (d : Option DSt) (args : List String) : Option (Option DSt × String)
       let name ← unhexChars name
       let labels ← labelsTok labels
       let viaP := emitCfg d.hasLayer p.base d.filter t name labels
+      -- the filtered model must agree (a hidden current span has no labels there, an empty map here)
+      if d.hasLayer && fEmit d.f d.filter t name labels != viaP then none else
       -- when the slots were tracked, the key as the code computes it: current span's labels read from its slot
       if d.hasLayer && !d.r.base.spans.isEmpty && d.r.base.spans.length == p.base.spans.length
           && rEmit d.r d.filter t name labels != viaP then none
